@@ -241,6 +241,51 @@ theorem cbc_dec_enc' (E D : Bytes → Bytes) (hE : ∀ b, (E b).length = 16)
   cbc_dec_enc E D hE hD iv d hiv hd
 
 
+/-! ## Whole object maps: the loops of `Document::encrypt` / `decrypt_raw` -/
+
+/-- Walking all objects of a document with `encrypt_object` and then with `decrypt_object`
+(skipping an id that is not among them — the Encrypt dictionary added afterwards) restores every
+object up to `normLen`: for every object map, every state, every IV supply. -/
+theorem objects_rt (P : Prims) (st : EncState) (ivs : IVs)
+    (hk : ∀ key, BlockOK P key) (hiv : ∀ n, (ivs n).length = 16) (skip : ObjId)
+    (os : Objects) (k : Nat) (r : Objects × Nat) (h : encObjects P st ivs os k = .ok r)
+    (hs : ∀ e ∈ os, e.1 ≠ skip) :
+    decObjects P st skip r.1 = .ok (os.map fun e => (e.1, normLen st e.2)) := by
+  induction os generalizing k r with
+  | nil => simp [encObjects] at h; subst h; simp [decObjects]
+  | cons e rest ih =>
+    obtain ⟨id, o⟩ := e
+    simp only [encObjects] at h
+    split at h
+    · cases h
+    · rename_i o' k' ho
+      split at h
+      · cases h
+      · rename_i rest' k'' hr
+        injection h with h; subst h
+        have hid : id ≠ skip := hs (id, o) (by simp)
+        have hrest := ih k' _ hr (fun e he => hs e (by simp [he]))
+        have hw := walker_rt P st id ivs hk hiv o k _ ho
+        simp only [decObjects, hid, ↓reduceIte]
+        simp at hw hrest
+        simp [hw, hrest]
+
+/-- the object walk of `Document::encrypt` touches nothing but strings and streams: ids are kept -/
+theorem encObjects_ids (P : Prims) (st : EncState) (ivs : IVs) (os : Objects) (k : Nat) (r : Objects × Nat)
+    (h : encObjects P st ivs os k = .ok r) : r.1.map (·.1) = os.map (·.1) := by
+  induction os generalizing k r with
+  | nil => simp [encObjects] at h; subst h; rfl
+  | cons e rest ih =>
+    obtain ⟨id, o⟩ := e
+    simp only [encObjects] at h
+    split at h
+    · cases h
+    · split at h
+      · cases h
+      · rename_i rest' k'' hr
+        injection h with h; subst h
+        simp [ih _ _ hr]
+
 /-! ## Counter-witnesses: where the full statement is false of the code
 
 The model is parametric in the hash functions and the block cipher, so a concrete execution needs an
